@@ -580,6 +580,9 @@ func scenTerm(out *scenOut, r *rng, thorough bool) {
 	}
 	quitBeforeRun(out, false)
 	quitBeforeRun(out, true)
+	for _, cause := range []string{"quitmsg", "quitapi", "interrupt", "kill", "ctx", "panic-update", "readerr"} {
+		noRendererRuns(out, cause)
+	}
 	for _, cause := range []string{"ctx", "quit-call", "kill"} {
 		termDuringStartup(out, cause, false)
 		termDuringStartup(out, cause, true)
@@ -665,6 +668,9 @@ func scenAPI(out *scenOut, r *rng, thorough bool) {
 	quietStdio()
 	causes := []string{"quitmsg", "kill", "ctx", "interrupt", "readerr", "panic-update"}
 	kinds := []string{"send", "quit", "println", "printf", "wait"}
+	for _, cause := range []string{"quitmsg", "kill", "ctx", "readerr"} {
+		noRendererRuns(out, cause) // (the C13 part: late calls on a program without a renderer)
+	}
 	var wg sync.WaitGroup
 	sem := make(chan struct{}, 8)
 	for _, c := range causes {
@@ -1328,5 +1334,132 @@ func waitBeforeRun(out *scenOut, cause string) {
 	case <-time.After(2 * time.Second):
 		out.fail(finding{Property: "C13", Class: "new", What: "Wait called before Run never returns although Run has completed", Input: desc,
 			Expected: "Wait returns for every caller once Run has completed", Observed: "still blocked 2 s after Run returned"})
+	}
+}
+
+// noRendererRuns: programs built with WithoutRenderer (the nil renderer: a program used as a
+// daemon / with its output not a terminal). Everything the other properties say about the message
+// pipeline and the end of the program holds for them too: messages sent by one goroutine reach
+// Update in order and exactly once (C01), mode commands, prints and window titles are accepted and
+// write NOTHING (C05: nothing to restore because nothing was changed), Run returns with the right
+// error for every cause (C04), and Wait / Send / Println after the end return (C13).
+func noRendererRuns(out *scenOut, cause string) {
+	ctl := newRecCtl()
+	buf := &safeBuffer{}
+	hold := make(chan struct{})
+	var holdOnce sync.Once
+	release := func() { holdOnce.Do(func() { close(hold) }) }
+	defer release()
+	ctl.onUpdate = func(m tea.Msg, v int) tea.Cmd {
+		if u, ok := m.(userMsg); ok {
+			if u.Sender == 9 && u.Seq == 9 && cause == "panic-update" {
+				panic("harness: injected panic in Update")
+			}
+			if u.Sender == 1 && u.Seq%10 == 0 {
+				// commands and mode commands keep coming while the program runs
+				return tea.Batch(tea.EnterAltScreen, tea.HideCursor, tea.EnableMouseAllMotion, tea.SetWindowTitle("t"),
+					tea.Println("printed"), func() tea.Msg { return cmdMsg{fmt.Sprintf("c%d", u.Seq)} })
+			}
+		}
+		return nil
+	}
+	parent, cancel := context.WithCancel(context.Background())
+	defer cancel()
+	opts := []tea.ProgramOption{tea.WithoutRenderer(), tea.WithoutSignalHandler(), tea.WithContext(parent),
+		tea.WithAltScreen(), tea.WithMouseCellMotion(), tea.WithReportFocus()}
+	readGate := newGate(true)
+	defer readGate.open()
+	if cause == "readerr" {
+		opts = append(opts, tea.WithInput(errReader{g: readGate, err: errInjectedRead}))
+	} else {
+		opts = append(opts, tea.WithInput(nil))
+	}
+	run := startProgram(ctl, buf, opts...)
+	desc := "WithoutRenderer + start-up mode options; 60 messages from one sender, every tenth answered with mode commands, a title, a print and a command; then " + cause
+	if !waitFor(3*time.Second, func() bool { return ctl.log.has("view-exit", "") }) {
+		out.fail(finding{Property: "C04", Class: "harness", What: "program did not come up", Input: desc})
+		return
+	}
+	const n = 60
+	for i := 0; i < n; i++ {
+		run.p.Send(userMsg{1, i})
+	}
+	run.p.Println("from outside")
+	run.p.Send(userMsg{0, 0})
+	waitFor(3*time.Second, func() bool { return ctl.log.has("update-exit", "u0.0") })
+	waitFor(2*time.Second, func() bool { return ctl.log.count("update-exit", "c:c") >= n/10 })
+	want := "killed"
+	switch cause {
+	case "quitmsg":
+		run.p.Send(tea.QuitMsg{})
+		want = "nil"
+	case "quitapi":
+		run.p.Quit()
+		want = "nil"
+	case "interrupt":
+		run.p.Send(tea.Interrupt())
+		want = "interrupted"
+	case "kill":
+		run.p.Kill()
+	case "ctx":
+		cancel()
+	case "panic-update":
+		go run.p.Send(userMsg{9, 9})
+	case "readerr":
+		readGate.open()
+		want = "other:" + errInjectedRead.Error()
+	}
+	out.record("no-renderer/"+cause, desc)
+	if !run.wait(4 * time.Second) {
+		out.fail(finding{Property: "C04", Class: "new", What: "Run does not return (program without a renderer)", Input: desc, Observed: goroutineDump()})
+		run.p.Kill()
+		return
+	}
+	if cause == "readerr" && errors.Is(run.err, errInjectedRead) {
+		want = errClass(run.err) // the reader's error (wrapped)
+	}
+	if got := errClass(run.err); got != want {
+		out.fail(finding{Property: "C04", Class: "new", What: "wrong Run result (program without a renderer)", Input: desc, Expected: want, Observed: got})
+	}
+	// C01: the sender's messages in order, once each
+	next := 0
+	for _, e := range ctl.log.snapshot() {
+		if e.Kind == "update-enter" && strings.HasPrefix(e.Arg, "u1.") {
+			var seq int
+			fmt.Sscanf(e.Arg, "u1.%d", &seq)
+			if seq != next {
+				out.fail(finding{Property: "C01", Class: "new", What: "messages of one sender did not reach Update in order, once each (program without a renderer)", Input: desc,
+					Expected: fmt.Sprintf("u1.%d", next), Observed: e.Arg})
+				break
+			}
+			next++
+		}
+	}
+	if next != n {
+		out.fail(finding{Property: "C01", Class: "new", What: "a message whose Send completed before the program began terminating did not reach Update (program without a renderer)", Input: desc,
+			Expected: fmt.Sprint(n), Observed: fmt.Sprint(next)})
+	}
+	if got := ctl.log.count("update-enter", "c:c"); got != n/10 {
+		out.fail(finding{Property: "C02", Class: "new", What: "command results did not reach Update exactly once (program without a renderer)", Input: desc, Expected: fmt.Sprint(n / 10), Observed: fmt.Sprint(got)})
+	}
+	// C05: a program without a renderer never touches the terminal
+	if cause != "panic-update" && buf.Len() != 0 {
+		out.fail(finding{Property: "C05", Class: "new", What: "a program without a renderer wrote to its output (terminal modes may have been changed with nothing to restore them)", Input: desc,
+			Expected: "no output", Observed: fmt.Sprintf("%q", buf.String())})
+	}
+	// C13: late calls return
+	done := make(chan struct{})
+	go func() {
+		run.p.Wait()
+		run.p.Send(userMsg{5, 5})
+		run.p.Println("late")
+		run.p.Printf("%d", 1)
+		run.p.Quit()
+		close(done)
+	}()
+	select {
+	case <-done:
+	case <-time.After(3 * time.Second):
+		out.fail(finding{Property: "C13", Class: "new", What: "Wait / Send / Println / Printf / Quit after the end of a program without a renderer do not all return", Input: desc, Observed: goroutineDump()})
 	}
 }
